@@ -11,8 +11,10 @@
      - FaceModify::apply / FaceAttrs of a DECRPSS reply (FaceGet): only the
        colours of the face are modelled.
      - the colour text of an OSC reply is parsed by rasterize's `RGBA::from_str`
-       first: the OSC decoder's result is `RExt ev` = "Some ev or None, decided
-       by the external parser".
+       first; a text starting with `rgb:` is never accepted by it (it is neither
+       `#hex` nor an SVG colour name), so that form is modelled exactly
+       (parse_color's own XParseColor branch); for any other text the result is
+       `RExt ev` = "Some ev or None, decided by the external parser".
      - String::from_utf8_lossy (kitty error text) and the termcap strings.
 
    Line references are to src/decoder.rs of the crate worktree (after the C02
@@ -72,7 +74,7 @@ Inductive pev : Type :=
 | PDecMode (mode status : N)
 | PDevAttrs (l : list N)                         (* BTreeSet<usize>: increasing, distinct *)
 | PKitty (id : N) (placement : option N) (err : bool)
-| PColor (name idx : N)                          (* name 0 Foreground, 1 Background, 2 Palette(idx); colour opaque *)
+| PColor (name idx : N) (c : option rgb)         (* name 0 Foreground, 1 Background, 2 Palette(idx); colour: Some for the `rgb:` form, None = decided by RGBA::from_str *)
 | PFaceM (f : facem)                             (* Command(FaceModify(f)) / TerminalCommand::FaceModify(f) *)
 | PFaceG (fg bg : option rgb)                    (* FaceGet(face): colours of the face; its attribute set is opaque (C06) *)
 | PTermcap                                       (* Termcap(_): opaque *)
@@ -499,6 +501,61 @@ Definition dec_mouse (data : list N) : outcome pres :=
   | _ => Ok RNone
   end.
 
+(* parse_color's XParseColor branch: "rgb:r{1-4}/g{1-4}/b{1-4}" (decoder.rs parse_component) *)
+Definition hex_val (b : N) : option N :=
+  if (48 <=? b) && (b <=? 57) then Some (b - 48)
+  else if (65 <=? b) && (b <=? 70) then Some (b - 55)
+  else if (97 <=? b) && (b <=? 102) then Some (b - 87)
+  else None.
+Fixpoint hex_acc (acc : N) (l : list N) : option N :=
+  match l with
+  | [] => Some acc
+  | b :: r => match hex_val b with
+              | Some v => if acc * 16 + v <=? usize_max then hex_acc (acc * 16 + v) r else None
+              | None => None
+              end
+  end.
+(* usize::from_str_radix(s, 16): an optional leading `+`, then at least one hex digit, no overflow *)
+Definition from_str_radix16 (s : list N) : option N :=
+  let digits := match s with 43 :: r => r | _ => s end in
+  match digits with [] => None | _ => hex_acc 0 digits end.
+Definition parse_component (s : list N) : option N :=
+  match from_str_radix16 s with
+  | None => None
+  | Some value =>
+      let n := N.of_nat (length s) in
+      let scaled := if n =? 4 then Some (value / 256)
+                    else if n =? 3 then Some (value / 16)
+                    else if n =? 2 then Some value
+                    else if n =? 1 then Some (value * 17)
+                    else None in
+      match scaled with
+      | Some v => Some (if v <=? 255 then v else 255)     (* value.clamp(0, 255) as u8 *)
+      | None => None
+      end
+  end.
+Definition parse_rgb (text : list N) : option rgb :=
+  match split_on 47 text with
+  | a :: rest =>
+      match parse_component a with
+      | None => None
+      | Some r =>
+          match rest with
+          | b :: rest2 =>
+              match parse_component b with
+              | None => None
+              | Some g =>
+                  match rest2 with
+                  | c :: _ => match parse_component c with Some bl => Some (r, g, bl) | None => None end
+                  | [] => None
+                  end
+              end
+          | [] => None
+          end
+      end
+  | [] => None
+  end.
+
 (* 8 OSControlMatcher: "\x1b]<number>;.*(\x1b\\|\x07)" *)
 Definition dec_osc (data : list N) : outcome pres :=
   let* last := index data (length data - 1) in
@@ -512,7 +569,17 @@ Definition dec_osc (data : list N) : outcome pres :=
           let finish (name idx : N) (rest : list (list N)) :=
             match rest with
             | [] => Ok RNone
-            | text :: _ => if utf8_valid text then Ok (RExt (PColor name idx)) else Ok RNone
+            | text :: _ =>
+                if utf8_valid text then
+                  match text with
+                  | 114 :: 103 :: 98 :: 58 :: comps =>        (* "rgb:": RGBA::from_str rejects it, parse_color's own branch decides *)
+                      match parse_rgb comps with
+                      | Some c => Ok (RSome (PColor name idx (Some c)))
+                      | None => Ok RNone
+                      end
+                  | _ => Ok (RExt (PColor name idx None))
+                  end
+                else Ok RNone
             end in
           if id =? 10 then finish 0 0 args
           else if id =? 11 then finish 1 0 args
